@@ -209,6 +209,10 @@ func strScanFrom(b []byte, k int, validate bool, nonVerb, nonCanon bool) strScan
 //@ ensures utf8-iff: resumeOffset > 0 || (len(b) > 0 && b[0] == '"') ==> (err == ErrInvalidUTF8) == (strScanFrom(b, max(resumeOffset, 1), validateUTF8, old(*flags)%2 == 1, old(*flags)/2%2 == 1).kind == uBadUTF8)
 //@ ensures err-n: (resumeOffset > 0 || (len(b) > 0 && b[0] == '"')) && err != nil ==> n == strScanFrom(b, max(resumeOffset, 1), validateUTF8, old(*flags)%2 == 1, old(*flags)/2%2 == 1).pos
 //@ ensures range: 0 <= n && n <= len(b) && (n >= resumeOffset || n == 0)
+//@ ensures err-type: err == nil || isUnexpectedEOF(err) || err == ErrInvalidUTF8 || isInvalidTextErr(err)
+//@ ensures ok-len: err == nil ==> n >= 2
+//@ ensures ok-close: err == nil ==> n >= 1 && b[n-1] == '"'
+//@ ensures first-quote: resumeOffset == 0 && (err == nil || n > 0) ==> len(b) > 0 && b[0] == '"'
 //@ ensures flags-mono: (old(*flags)%2 == 1 ==> *flags%2 == 1) && (old(*flags)/2%2 == 1 ==> *flags/2%2 == 1) && *flags/4 == old(*flags)/4
 //@ ensures verbatim-exact: (resumeOffset > 0 || (len(b) > 0 && b[0] == '"')) && err == nil ==> (*flags%2 == 1) == strScanFrom(b, max(resumeOffset, 1), validateUTF8, old(*flags)%2 == 1, old(*flags)/2%2 == 1).nonVerb
 //@ ensures canonical-exact: (resumeOffset > 0 || (len(b) > 0 && b[0] == '"')) && err == nil ==> (*flags/2%2 == 1) == strScanFrom(b, max(resumeOffset, 1), validateUTF8, old(*flags)%2 == 1, old(*flags)/2%2 == 1).nonCanon
@@ -239,7 +243,7 @@ func strScanFrom(b []byte, k int, validate bool, nonVerb, nonCanon bool) strScan
 //@ trusted unicode/utf8: appends 1..4 bytes (the UTF-8 encoding of r, or of U+FFFD); documented behaviour
 //@ modifies p[len(p):cap(p)]
 //@ ensures sameOrFresh(result, p)
-//@ ensures len(result) >= len(p)+1 && len(result) <= len(p)+4
+//@ ensures len(result) >= len(p)+1 && len(result) <= len(p)+4 && cap(result) >= cap(p)
 //@ ensures vForall(0, len(p), func(i int) bool { return result[i] == old(p[i]) })
 
 //@ func AppendUnquote
@@ -248,12 +252,20 @@ func strScanFrom(b []byte, k int, validate bool, nonVerb, nonCanon bool) strScan
 //@ modifies dst[len(dst):cap(dst)]
 //@ ensures alias: sameOrFresh(v, dst)
 //@ ensures length: len(v) >= len(dst)
+//@ ensures grown: cap(v) >= len(dst)+len(src)
 //@ ensures prefix: vForall(0, len(dst), func(k int) bool { return v[k] == old(dst[k]) })
 //@ ensures src-kept: unchanged(src)
-//@ loop 0 invariant range: 1 <= i && i <= n && n <= len(src) && len(dst) >= len(old(dst))
+//@ loop 0 invariant range: 1 <= i && i <= n && n <= len(src) && len(dst) >= len(old(dst)) && cap(dst) >= len(old(dst))+len(src)
 //@ loop 0 invariant alias: sameOrFresh(dst, old(dst))
 //@ loop 0 invariant prefix: vForall(0, len(old(dst)), func(k int) bool { return dst[k] == old(dst[k]) })
 //@ loop 0 invariant src-kept: unchanged(src)
 //@ loop 0 decreases len(src) - n
 //@ loop 1 invariant range: 1 <= i && i <= n && n <= len(src) && n >= entry(n)
 //@ loop 1 decreases len(src) - n
+
+//@ func UnquoteMayCopy
+//@ property C03 C16 C20
+//@ requires isVerbatim ==> len(b) >= 2
+//@ ensures verbatim: isVerbatim ==> len(result) == len(b)-2 && vForall(0, len(result), func(k int) bool { return result[k] == b[k+1] })
+//@ ensures src-kept: unchanged(b)
+//@ ensures copied: !isVerbatim && len(b) > 0 ==> freshArray(result)
